@@ -13,7 +13,15 @@ Anything outside the recognised shape raises `Unsupported` (a broken obligation,
 import ast
 
 from harness.translate import gen as G
+from harness.translate import norm_c08 as N
 from harness.translate import py2lean as T
+
+
+def _parse_conv():
+    """sigpy/conv.py, parsed and normalised (harness/translate/norm_c08.py: helper inlining, temporaries, argument
+    forms, guard / loop spellings — each rewrite semantics-preserving, anything else is left for the matchers below
+    to reject)"""
+    return N.normalize(G._parse("sigpy/conv.py"))
 
 
 def _mode_branches(fn):
@@ -113,7 +121,7 @@ def _adjoint(tree, fname, prefix, out):
 
 
 def gen_conv_formulas(ctx=None):
-    tree = G._parse("sigpy/conv.py")
+    tree = _parse_conv()
     out = [G.HEADER % "sigpy/conv.py"]
     fn = T.find_function(tree, "_get_convolve_params")
     br = _mode_branches(fn)
@@ -496,7 +504,7 @@ def _wiring(tree, fname, prefix, adjoint, shape_args, out):
 
 
 def gen_conv_wiring(ctx=None):
-    tree = G._parse("sigpy/conv.py")
+    tree = _parse_conv()
     out = [WIRING_HEADER]
     _wiring(tree, "_convolve", "conv", False, ["data.shape", "filt.shape"], out)
     _wiring(tree, "_convolve_data_adjoint", "dataAdj", True, ["data_shape", "filt.shape"], out)
@@ -738,7 +746,7 @@ def _item(e):
 
 
 def gen_conv_params(ctx=None):
-    tree = G._parse("sigpy/conv.py")
+    tree = _parse_conv()
     fn = T.find_function(tree, "_get_convolve_params")
     if [a.arg for a in fn.args.args] != ["data_shape", "filt_shape", "mode", "strides", "multi_channel"]:
         raise T.Unsupported("_get_convolve_params signature")
